@@ -9,8 +9,12 @@
              or 2*node+1 (Exit); status 0 = all calls returned, 2 = a call panicked (lists empty);
              revpost = Reverse(PostOrder(g, root)); enterOnly / exitOnly = Euler with one nil callback;
              pure = 1 iff the adjacency lists are unchanged after all calls.
+     op 3  SCC:                 18 3 <graph> flags status ncomps {<Subnodes(c)>}* hascof <SubnodeComponent(0..n-1)> nouts {<Out(c)>}* pure
+             flags: 1 SCCSubnodeComponent, 2 SCCEdges; hascof = 1 iff flags != 0 (otherwise the list is empty);
+             Out(c) is listed for every component (all empty without SCCEdges).
    Verdict tag = 0 for a trivial case, else 256*op + branch bits (listed per op). *)
-From MM Require Import Base.Num Base.GCGraph Model.Marks Spec.Dfs Model.Order.
+From Coq Require Import FMapPositive.
+From MM Require Import Base.Num Base.GCGraph Base.GCReach Model.Marks Spec.Dfs Model.Order Spec.Scc.
 Open Scope Z_scope.
 
 Definition pfail {A} : parser A := fun _ => None.
@@ -147,11 +151,54 @@ Definition check_trav : parser (list Z) :=
               else verdict V_MISMATCH (mk_tag 2 (Z.lor bits 128)) (-1) [2; 99]
           end).
 
+(* ------------------------------------------------------------------ op 3: SCC *)
+Definition NsZ (l : list Z) : list N := map Z.to_N l.
+Fixpoint cof_match (m : cmap) (obs : list Z) (v : N) : bool :=
+  match obs with
+  | [] => true
+  | c :: t => (Z.of_N (cm_of m v) =? c) && cof_match m t (v + 1)%N
+  end.
+
+(* branch bits: 1 a component with more than one node, 2 more than one component, 4 >= 1024 nodes,
+   8 SCCEdges with a non-empty out list, 16 no flag, 32 SCCSubnodeComponent only, 64 an empty graph *)
+Definition scc_bits (g : graph) (flags : Z) (comps outs : list (list Z)) : Z :=
+  Z.lor (if existsb (fun l => (1 <? length l)%nat) comps then 1 else 0)
+  (Z.lor (if (1 <? length comps)%nat then 2 else 0)
+  (Z.lor (if (1024 <=? length g)%nat then 4 else 0)
+  (Z.lor (if Z.testbit flags 1 && existsb (fun l => (0 <? length l)%nat) outs then 8 else 0)
+  (Z.lor (if flags =? 0 then 16 else 0)
+  (Z.lor (if flags =? 1 then 32 else 0)
+         (if (length g =? 0)%nat then 64 else 0)))))).
+
+Definition check_scc : parser (list Z) :=
+  do g <- p_graph; do flags <- pZ; do status <- pZ; do comps <- plist_any p_Zs; do hascof <- pZ; do cof <- p_Zs;
+  do outs <- plist_any p_Zs; do pure <- pZ;
+  pend (if negb (g_wfb g) then verdict V_MALFORMED 0 (-1) [3]
+        else
+          let bits := scc_bits g flags comps outs in
+          let compsN := map NsZ comps in
+          let outsN := map NsZ outs in
+          let neg := existsb (existsb (fun x => x <? 0)) comps || existsb (existsb (fun x => x <? 0)) outs in
+          let w := first_false
+            [ status =? 0;
+              negb neg;
+              scc_ok g compsN;
+              (hascof =? (if flags =? 0 then 0 else 1));
+              (hascof =? 0) || ((length cof =? length g)%nat &&
+                 match cm_build (g_n g) compsN 0%N (PositiveMap.empty N) with Some m => cof_match m cof 0%N | None => false end);
+              (length outs =? length comps)%nat;
+              if Z.testbit flags 1 then scc_edges_ok g compsN outsN else forallb (fun l => (length l =? 0)%nat) outs;
+              pure =? 1 ] in
+          match w with
+          | None => verdict V_OK (mk_tag 3 bits) (-1) []
+          | Some k => verdict V_MISMATCH (mk_tag 3 (Z.lor bits 128)) k [3; k]
+          end).
+
 (* ------------------------------------------------------------------ dispatch *)
 Definition check_C18 (line : list Z) : list Z :=
   match line with
   | 18 :: op :: rest =>
-      let p := if op =? 1 then check_marks else if op =? 2 then check_trav else pfail in
+      let p := if op =? 1 then check_marks else if op =? 2 then check_trav else if op =? 3 then check_scc else pfail in
       match p rest with
       | Some (v, _) => v
       | None => verdict V_MALFORMED 0 (-1) [op]
